@@ -41,7 +41,8 @@ func (g *Gen) report(res *CheckResult, verif, repo string, seed int, evidencePat
 		}
 		present := false
 		for _, o := range res.All {
-			if o.Name == k.Obligation || strings.HasPrefix(o.Name, k.Obligation+"#") || strings.HasPrefix(o.Name, k.Obligation+"@") {
+			if o.Name == k.Obligation || strings.HasPrefix(o.Name, k.Obligation+"#") || strings.HasPrefix(o.Name, k.Obligation+"@") ||
+				(strings.HasPrefix(k.Obligation, "*#") && strings.Contains(o.Name, k.Obligation[1:])) {
 				present = true
 			}
 		}
